@@ -5,7 +5,7 @@ usage: seediso.py <seeded-dir> --slot N [--checks C01,C02] [--tier quick]    pri
 import json, os, shutil, subprocess, sys
 ENV = dict(os.environ, GOFLAGS="-mod=mod", GOPROXY="off", GOSUMDB="off", GOTOOLCHAIN="local", GOCACHE="/verif/.cache/go-build")
 def sh(cmd, cwd=None, timeout=3600):
-    p = subprocess.run(cmd, cwd=cwd, env=ENV, stdout=subprocess.PIPE, stderr=subprocess.STDOUT, text=True, timeout=timeout)
+    p = subprocess.run(cmd, cwd=cwd, env=ENV, stdout=subprocess.PIPE, stderr=subprocess.STDOUT, text=True, errors="replace", timeout=timeout)
     return p.returncode, p.stdout
 d = os.path.abspath(sys.argv[1]); a = sys.argv[2:]
 slot = a[a.index("--slot") + 1]
